@@ -45,7 +45,7 @@ def main(ctx):
 
     def run_wide():
         return recipe.tlc_only('heap-wide', 'Heap', constants=tla(wide), invariants=INV,
-                               properties=PROPS, workers=8, timeout=2400, heap='6g')
+                               properties=PROPS, workers=8, timeout=1800, heap='6g', budget_ok=True)
 
     def run_small(c):
         return recipe.tlc_only('heap-small', 'Heap', constants=tla(c), invariants=INV,
